@@ -120,6 +120,46 @@ def band_event(ev, s, o, g, fn_name, a, alpha, sampler, method, np_seed):
         e["exc"] = f"{type(ex).__name__}: {ex}"[:200]
 
 
+def band_big_events(ids, cid0, tier):
+    """classes of 700 .. 1e6 scored samples, one supplied threshold beyond every score (one rate is
+    exactly 0, the other exactly 1): the rule of three in units of 1/n"""
+    from score_analysis import BootstrapConfig, Scores, roc_with_ci
+    sizes = [(700, 1000), (3000, 4000), (6003, 20002), (4000, 6003), (50003, 3000), (1000001, 700)]
+    evs = []
+    for k, (npos, nneg) in enumerate(sizes if tier == "thorough" else sizes[:4]):
+        for j, alpha in enumerate([50, 500, 100, 900][k % 2::2]):
+            for end in ("below", "above"):
+                sc = ["pos", "neg"][(k + j) % 2]
+                e = {"id": next(ids), "cid": cid0, "op": "band_big", "exc": "", "conc": "big", "alpha": alpha,
+                     "npos": npos, "nneg": nneg, "end": end, "n_zero": 0, "n_one": 0, "wn6_zero_side": -1,
+                     "wn6_one_side": -1, "zero_side_starts_at_zero": False, "one_side_ends_at_one": False}
+                try:
+                    # both classes span exactly [0, 2]: only thresholds beyond every score have a rate of 0 / 1,
+                    # so the envelope at the end point is the end point's own rectangle
+                    s = Scores(np.linspace(0.0, 2.0, npos), np.linspace(0.0, 2.0, nneg), score_class=sc,
+                               equal_class="pos" if end == "below" else "neg")
+                    cfg = BootstrapConfig(nb_samples=4, sampling_method=lambda x: x, bootstrap_method="quantile")
+                    t = -5.0 if end == "below" else 9.0
+                    c = roc_with_ci(s, alpha=alpha / 1000.0, config=cfg, thresholds=np.array([t]), nb_points=None)
+                    i = int(np.argmin(np.abs(np.asarray(c.thresholds, dtype=float) - t)))
+                    if float(np.asarray(c.thresholds)[i]) != t:
+                        raise AssertionError("the supplied threshold is not on the curve")
+                    fnr, fpr = float(np.asarray(c.fnr)[i]), float(np.asarray(c.fpr)[i])
+                    fc, pc = np.asarray(c.fnr_ci, dtype=float)[i], np.asarray(c.fpr_ci, dtype=float)[i]
+                    if {fnr, fpr} != {0.0, 1.0}:
+                        raise AssertionError(f"not an end point: fnr={fnr} fpr={fpr}")
+                    (zc, nz), (oc, no) = ((fc, npos), (pc, nneg)) if fnr == 0.0 else ((pc, nneg), (fc, npos))
+                    e["n_zero"], e["n_one"] = nz, no
+                    e["zero_side_starts_at_zero"] = bool(zc[0] == 0.0)
+                    e["one_side_ends_at_one"] = bool(oc[1] == 1.0)
+                    e["wn6_zero_side"] = int(round(min(2000.0, zc[1] * nz) * 1e6))
+                    e["wn6_one_side"] = int(round(min(2000.0, (1.0 - oc[0]) * no) * 1e6))
+                except Exception as ex:  # noqa
+                    e["exc"] = f"{type(ex).__name__}: {ex}"[:200]
+                evs.append(e)
+    return evs
+
+
 def events_for_case(o, cid, g, ids, seed, tier):
     evs = []
     ev = sd.make_ev(evs, ids, cid, g)
@@ -130,7 +170,7 @@ def events_for_case(o, cid, g, ids, seed, tier):
     for j, a in enumerate(ARGS):
         if tier == "quick" and (cid + j) % 2 and len(o["pos"]) + len(o["neg"]) > 2 and o["ep"] < 40:
             continue                       # quick tier: every other argument combination per object
-        alpha = [50, 100][(cid // 2 + j) % 2]
+        alpha = [50, 100, 500, 900][(cid // 2 + j) % 4]     # the whole range of (0, 1), incl. alpha >= 1/2
         band_event(ev, s, o, g, "roc_with_ci", a, alpha, "identity", methods[(cid + j) % 3], seed + cid)
         if (cid + j) % 3 == 0 or tier == "thorough":
             band_event(ev, s, o, g, "roc_with_ci", a, alpha,
@@ -158,6 +198,8 @@ def run(ctx: core.Ctx):
         vals = list(o["pos"]) + list(o["neg"])
         if len(set(vals)) < len(vals) or o["ep"] or o["en"]:
             ctx.nontrivial.add(json.dumps(o, sort_keys=True))
+    events += band_big_events(ids, len(cases), ctx.tier)
+    cases.append({"kind": "big_classes"})
     ctx.sample(events[1])
     ctx.judge("Trace_C16", events, cases=cases, batch=1500, env_extra={"TABLES_FILE": str(tables)})
     ctx.rule = ("every small object (both classes non-empty, ties, easy samples, 4 configs) x 7 argument "
